@@ -9,6 +9,14 @@ ProgLoopSub == <<I("ldx", 2), I("jsr", 6), I("dex", 0), I("bne", 2), I("brk", 0)
 ProgPush == <<I("jsr", 4), I("nop", 0), I("brk", 0), I("pha", 0), I("nop", 0), I("pla", 0), I("rts", 0)>>
 (* 1 nop / 2 w: jmp w  -- a one-instruction loop: the pc never differs from the last checked pc *)
 ProgSelf == <<I("nop", 0), I("jmp", 2), I("brk", 0)>>
+(* 1 ldx #0 / 2 .loop 2 { inx } (line 2 twice) / 3 iny / 4 brk : one source line, two instructions *)
+ProgDup == <<I("ldx", 0), I("inx", 0), I("inx", 0), I("iny", 0), I("brk", 0)>>
+LinesDup == <<1, 2, 2, 3, 4>>
+BpsDup == {{}, {2}}
+Id7 == <<1, 2, 3, 4, 5, 6, 7>>
+Id3 == <<1, 2, 3>>
+DupDev == {"FirstPcOnly"}
+StaleDev == {"StaleBpCopy"}
 Bps3 == {{}, {3}, {6}}
 Bps2 == {{}, {6}}
 BpsPush == {{5}}
